@@ -25,6 +25,7 @@ pub mod refsearch;
 pub mod c17;
 pub mod fuzzplay;
 pub mod fuzzuci;
+pub mod fuzzsearch;
 pub mod c06;
 
 use frame::{Ctx, Report};
